@@ -10,6 +10,8 @@
 package c07
 
 import (
+	"strings"
+	"fmt"
 	"math/rand"
 	"strconv"
 	"time"
@@ -147,6 +149,23 @@ func gen(rng *rand.Rand, tier core.Tier, emit core.Emit) {
 		}
 	}
 
+	// (0) complete, well-formed responses whose player / objective indexes are anything an int can be: far apart, negative,
+	// at the ends of the int64 range, repeated, with signs and leading zeros — decoding must cost time proportional to
+	// the response, not to the numbers in it
+	for _, ids := range [][]string{{"0", "4000000000000000"}, {"-9223372036854775808", "9223372036854775807"}, {"7", "0", "2"}, {"1000000", "999999"},
+		{"0", "1", "3000000000"}, {"-1", "+1", "01"}, {"5"}, {"2147483647", "2147483648", "-2147483649"}, {"0", "0", "0"}, {"9223372036854775807"}} {
+		for _, tail := range []string{"\\queryid\\1\\final\\", "\\final\\\\queryid\\1.1"} {
+			var sb strings.Builder
+			sb.WriteString("\\hostname\\Srv\\hostport\\10480\\gamevariant\\SWAT 4\\gamever\\1.1\\gametype\\CO-OP\\mapname\\M\\numplayers\\1\\maxplayers\\5")
+			for j, id := range ids {
+				fmt.Fprintf(&sb, "\\player_%s\\P%d\\score_%s\\%d", id, j, id, j)
+			}
+			sb.WriteString(tail)
+			ds := [][]byte{[]byte(sb.String())}
+			q(ds)
+			emit("dp", tmo, u.JoinDgrams(ds))
+		}
+	}
 	// (1) arbitrary bytes, 1..4 datagrams
 	for i := 0; i < 250*k; i++ {
 		n := 1 + rng.Intn(3)
